@@ -89,12 +89,13 @@ Clauses(fam, a) ==
          [length   |-> Len(a.perm) = a.R,
           in_range |-> \A k \in 1..Len(a.perm) : a.perm[k] \in 0..(a.R - 1),
           distinct |-> IsInj(a.perm)]
-    [] fam = "k_update" ->      \* a: rows (per mode), R, modes (factor modes to replace, in order), datalen
-         [modes_in_range |-> \A k \in 1..Len(a.modes) : a.modes[k] \in 0..(Len(a.rows) - 1),
+    [] fam = "k_update" ->      \* a: rows (per mode), R, modes (factor modes to replace, in order; -1 = the weights), datalen
+         [modes_in_range |-> \A k \in 1..Len(a.modes) : a.modes[k] \in (0 - 1)..(Len(a.rows) - 1),
           modes_distinct |-> IsInj(a.modes),
-          data_length    |-> (\A k \in 1..Len(a.modes) : a.modes[k] \in 0..(Len(a.rows) - 1)) =>
+          data_length    |-> (\A k \in 1..Len(a.modes) : a.modes[k] \in (0 - 1)..(Len(a.rows) - 1)) =>
                                \* (surplus data only raise a warning: documented)
-                               a.datalen >= SumSeq([k \in 1..Len(a.modes) |-> a.rows[a.modes[k] + 1] * a.R])]
+                               a.datalen >= SumSeq([k \in 1..Len(a.modes) |->
+                                                      IF a.modes[k] = 0 - 1 THEN a.R ELSE a.rows[a.modes[k] + 1] * a.R])]
     [] fam = "k_mode_arg" ->    \* a: N (number of modes), op (which single-mode argument), mode
          [mode_in_range |-> a.mode \in 0..(a.N - 1)]
     [] fam = "tt_reconstruct" -> \* a: N, modes (the modes that are sampled)
